@@ -42,6 +42,18 @@ def run(ck):
         ck.ob("C16-O5", sitestr(fp, rs[0]) if rs else sitestr(fp), False if (mixed or not fcalls or not always) else None,
               "Filter::process returns %s%s: the verdict of the built-in filters is overridden or filter() is not evaluated for every message (the duplicate filter then remembers a stale text)" %
               ([describe(deref_local(fp, r.get("e")))[:80] for r in rs], "" if always else "; filter() is skipped on some path"), key="Filter::process|return")
+    # the counter handler is seen through AttrHandler::process: it must ask attributes(lmsg) and merge the answer for every message, whatever state the
+    # message is in (already formatted, already carrying attributes) - otherwise messages pass without a number and the numbers of their neighbours no longer
+    # say how many messages the handler has seen
+    ck.rule("C16-O11", "AttrHandler::process calls updateAttributes(attributes(lmsg)) exactly once on every path (no short cut keyed on the message's state)")
+    ap_ = F.fn("QtLogger::AttrHandler::process")
+    ck.touch(ap_)
+    ga_ = Graph(ap_)
+    inner_ = [n for n in ap_.calls("QtLogger::AttrHandler::attributes") if n.get("virtual") and n.get("args") and is_ref_to(n["args"][0], ap_.params[0]["decl"])]
+    outer_ = [n for n in ap_.calls("QtLogger::LogMessage::updateAttributes") if n.get("args") and any(skip_copies(deref_local(ap_, n["args"][0])).get("id") == i_["id"] for i_ in inner_)]
+    ok_ = bool(outer_) and ga_.must_pass(set(ga_.sites_of_nodes(outer_))) and ga_.must_pass(set(ga_.sites_of_nodes(inner_)))
+    ck.ob("C16-O11", sitestr(ap_), ok_ if (ok_ or inner_) else None, "every message that reaches an attribute handler gets attributes(lmsg) merged in" if ok_ else
+          "AttrHandler::process has a path that returns without asking attributes(lmsg): a message that takes it passes SeqNumberAttr without a number (or keeps a stale one)", key="AttrHandler::process|skipped")
     level(ck)
     duplicate(ck)
     regexp(ck)
@@ -50,6 +62,8 @@ def run(ck):
     severity_comparisons(ck)
     evaluated_once(ck)
     ck.rule("C16-O9", "the filters decide on the text that was logged: LogMessage keeps the message text it is given (no trailing line break chopped, no trimming)")
+    from rules.c19 import share_ini_obligation
+    share_ini_obligation(ck, "C16-O10", "ini|text|regexp_filter", "configure(settings): the value of regexp_filter is the expression the RegExpFilter is built from, character for character")
     from rules.oth import message_text_intact
     message_text_intact(ck, ck.facts, "C16-O9", "texts that differ only in that are one text for the duplicate filter, and an expression that looks at the end of the text (\\n, \\s$, \\z) gets the wrong verdict")
 
